@@ -858,6 +858,24 @@ fn lattice(tier: Tier) -> Vec<(String, Vec<Transaction>)> {
             ],
         ));
     }
+    // a disposal spread in thirds over the three rules, its sale fee swept over every half-penny: the legs' fee
+    // shares (f/3) do not terminate, so the sum of the legs and proceeds minus cost differ in the 26th place, which
+    // decides the displayed penny exactly on the half-penny midpoints; a gain and a loss variant
+    let third_steps: Vec<i64> = if tier == Tier::Quick { (2000..=2800).collect() } else { (0..=4000).collect() };
+    for k in &third_steps {
+        let f = h(*k);
+        for (name, p1, p2) in [("thirds-gain", "9.50", "9.00"), ("thirds-loss", "11.50", "11.25")] {
+            out.push((
+                format!("{name} {f}"),
+                vec![
+                    alpha::buy(d0, "A", "100", "10", "0"),
+                    alpha::buy(alpha::date(2024, 6, 3), "A", "10", p1, "0"),
+                    alpha::sell(alpha::date(2024, 6, 3), "A", "30", "10.0335", &f.to_string()),
+                    alpha::buy(alpha::date(2024, 6, 10), "A", "10", p2, "0"),
+                ],
+            ));
+        }
+    }
     // several legs, several years, a loss year and a zero result
     out.push((
         "multi".to_string(),
@@ -1017,7 +1035,7 @@ pub fn c17(tier: Tier) -> i32 {
     acc = Acc::merge(acc, part);
     ctx.require(acc.get("pdf compared") >= 20 && acc.get("front-end processes compared") >= 5, "too few PDF / front-end comparisons");
     ctx.bound = json!({"lattice": "every multiple of 0.005 in [-2.00, +2.00] for gain/proceeds and for cost/average cost (1602 ledgers)", "magnitude_points": if tier == Tier::Quick { 17 } else { 201 }, "pdf_every": pdf_every});
-    ctx.alphabets.push(json!({"families": ["gain-lattice", "cost-lattice", "million-gain (+1,000,000.995)", "million-loss (-1,234,567.885)", "fees-lattice", "usd-echo", "quantity with 1..10 decimals", "quantity-of-event (ACCUMULATION/CAPRETURN unit counts and SPLIT/UNSPLIT ratios with 1..10 decimals)", "gain-loss-year (a gain and a loss in one year, every tenth-of-a-penny remainder of each)", "multi (3 years, 3 rules, dividend)"]}));
+    ctx.alphabets.push(json!({"families": ["gain-lattice", "cost-lattice", "million-gain (+1,000,000.995)", "million-loss (-1,234,567.885)", "fees-lattice", "usd-echo", "quantity with 1..10 decimals", "quantity-of-event (ACCUMULATION/CAPRETURN unit counts and SPLIT/UNSPLIT ratios with 1..10 decimals)", "gain-loss-year (a gain and a loss in one year, every tenth-of-a-penny remainder of each)", "thirds (a disposal in three legs of a third each, sale fee on every half-penny: non-terminating fee shares on the midpoints)", "multi (3 years, 3 rules, dividend)"]}));
     ctx.explanation = "States are reports on a value lattice: ledgers whose gain, proceeds, fees, allowable cost, Section 104 unit cost and closing average cost take every multiple of half a penny in [-2, +2] (and the same around +1,000,000.995 and -1,234,567.885), quantities with 1..10 decimals, USD echoes, a multi-year multi-rule ledger. For each, every figure shown by the plain-text report, the JSON report and the text runs of the compiled PDF (hook verif_text_runs; on every lattice point in the thorough tier) is parsed back and must equal the full-precision value of the TaxReport, either in full or rounded to pence half away from zero, in the stated dress; the lists of years, disposals, legs and positive holdings must coincide. A subset runs through the real CLI and MCP calculate_report/explain_matching. transitions = PDF compiles.".into();
     ctx.assumptions = vec!["'-£0.00' for a negative value that rounds to zero is tolerated".into()];
     ctx.finish(&acc, "model_checking")
